@@ -30,6 +30,7 @@ Every coupled operation is a `DynRoots.Op` paired with a *list of existing `GcAr
 | `fetch s h`/`tryFetch` | `fetch`/`tryFetch`     | inside a callback, own live handle: `readRoot k`, `read obj i`   |
 | `contains s h`         | `contains`             | —                                                               |
 | `gc op`                | —                      | `op` (guard `Sys.allowed`)                                      |
+| `dropArena`            | `destroySet s`, every `s` | `dropArena` (outside callbacks)                              |
 
 * `stash` is `mc.backward_barrier(Gc::erase(self.0), Some(Gc::erase(root)))` followed by
   `slots.add(root)` (src/dynamic_roots.rs).  The `.raw` store is licensed by the `Cover.pair` the
@@ -46,16 +47,22 @@ Every coupled operation is a `DynRoots.Op` paired with a *list of existing `GcAr
 * `fetch` is encoded as reading the set object's slot through the root, so "the fetched pointer"
   is literally the content of slot `h.index` of the set object (`fetch_net`).
 
+* Dropping the arena destructs every object, hence every set object, whose `Inner` drops its
+  `Rc<RefCell<Slots>>`: `Weak::upgrade` fails from then on.  The coupled op pairs `dropArena` with
+  `destroySet` for every set; afterwards the collector model refuses every op and handle clones /
+  drops only add / remove handles (`Dead.step`, `C14.outlive`).
+
 ## The coupling relation (`Coupled`)
 
 `arena`/`dyn`: both sides are runs of the two existing models from their initial states (so every
 theorem stated for `(Arena.new n).run ops` / `DynRoots.run State.init ops` applies verbatim);
-`alive`; `len`, `distinct`: one `SetLoc` per set, with pairwise different set objects;
-`sets`: for every set `s`, the root slot holds the set object, the set object is allocated,
-undestructed, traced (`needs_trace`), has exactly `cap` slots, and **slot `i` of the object is
-`some (strong r)` iff table slot `i` is `Occupied { root = r, .. }`, `none` if it is vacant or
-beyond the table's end** (`mirror`); the table has at most `cap` slots.  Hence the object's strong
-slots are exactly `Slots.traced` (`mem_mirror`).
+`len`, `distinct`: one `SetLoc` per set, with pairwise different set objects;
+`sets` (while the arena exists — `Live`): for every set `s`, the root slot holds the set object, the
+set object is allocated, undestructed, traced (`needs_trace`), has exactly `cap` slots, and **slot
+`i` of the object is `some (strong r)` iff table slot `i` is `Occupied { root = r, .. }`, `none` if
+it is vacant or beyond the table's end** (`mirror`); the table has at most `cap` slots.  Hence the
+object's strong slots are exactly `Slots.traced` (`mem_mirror`).
+`dead` (once the arena has been dropped — `Dead`): no set is alive.
 
 `Coupled.init`, `Coupled.step`, `Coupled.run`: the relation holds initially (no sets; sets are
 created by the coupled op `newSet`) and is preserved by every coupled operation.
@@ -68,9 +75,10 @@ created by the coupled op `newSet`) and is preserved by every coupled operation.
   pointer is stored directly in a root slot `k` that holds no other set; `Sys.allowed` forbids
   `rootStore` over such a slot.  So a set object is always strongly reachable from the root (this
   is the property's premise "a DynamicRootSet that is reachable from the root", in its simplest
-  form) and is never collected: `destroySet` does not occur in coupled histories.
-* **R3 no arena drop.**  `Sys.allowed` rejects `dropArena`.  ("Handles may outlive their arena" is
-  `C14.outlive` / `C14.destroyed_forever`, slot-table side only.)
+  form) and is never collected while the arena exists: `destroySet` occurs in coupled histories
+  only as part of the arena drop.
+* **R3** (`dropArena` is a coupled op of its own, not a `gc` op: `Sys.allowed` rejects the bare
+  collector-model op, which would leave the tables behind.)
 * **R4 fixed capacity.**  A heap object of the collector model has a slot *list* of fixed length, so
   the set object is allocated with `cap` slots (`newSet k cap`, any `cap`), and a `stash` whose
   table index would be `≥ cap` is *not a coupled operation* (`Sys.step` ignores it on both sides).
@@ -859,7 +867,16 @@ inductive COp where
   /-- any other collector-model op (collection calls, callbacks, allocation, reads, barriers,
   stores into other objects, root stores into other slots) -/
   | gc (op : Op)
+  /-- `drop(arena)` outside callbacks: every object is destructed, among them every set object, whose
+  `Inner` drops its `Rc<RefCell<Slots>>` — `destroySet` for every set -/
+  | dropArena
   deriving Repr, Inhabited
+
+/-- `destroySet` for every set id below `m`. -/
+def destroyOps (m : Nat) : List DynRoots.Op := (List.range m).map .destroySet
+
+/-- Run a list of DynRoots-model ops on the slot-table side. -/
+def Sys.doDs (S : Sys) (ops : List DynRoots.Op) : Sys := ops.foldl Sys.doD S
 
 def Sys.fetchLike (S : Sys) (s : Nat) (h : Handle) (dop : DynRoots.Op) : Sys :=
   match S.loc[s]? with
@@ -901,6 +918,8 @@ def Sys.step (S : Sys) : COp → Sys
   | .tryFetch s h => S.fetchLike s h (.tryFetch s h)
   | .contains s h => S.doD (.contains s h)
   | .gc op => if S.allowed op then S.doA [op] else S
+  | .dropArena =>
+    if S.a.alive && S.a.cb.isNone then (S.doA [.dropArena]).doDs (destroyOps S.d.sets.length) else S
 
 def Sys.run (S : Sys) : List COp → Sys
   | [] => S
@@ -914,9 +933,9 @@ structure Holds (a : Arena) (l : SetLoc) (ss : List Slot) : Prop where
   root : a.root[l.slot]? = some (some (.strong l.id))
   obj : ∃ o, a.ctx.heap.get l.id = some o ∧ o.live = true ∧ o.needsTrace = true ∧ o.slots = ss
 
-/-- **The coupling relation.**  Both sides are runs of the two existing models; the arena is alive;
-and every set's object mirrors the set's slot table slot by slot. -/
-structure Coupled (n : Nat) (S : Sys) : Prop where
+/-- The coupling relation while the arena exists: both sides are runs of the two existing models; the
+arena is alive; and every set's object mirrors the set's slot table slot by slot. -/
+structure Live (n : Nat) (S : Sys) : Prop where
   arena : S.a = (Arena.new n).run S.aops
   dyn : S.d = DynRoots.run State.init S.dops
   alive : S.a.alive = true
@@ -1099,11 +1118,11 @@ table keeps its length and its image. -/
 def SameTables (d d' : State) : Prop :=
   d'.sets.length = d.sets.length ∧
   ∀ (s : Nat) (rs' : RootSet), d'.sets[s]? = some rs' → ∃ rs, d.sets[s]? = some rs ∧
-    rs'.slots.slots.length = rs.slots.slots.length ∧
+    rs'.alive = rs.alive ∧ rs'.slots.slots.length = rs.slots.slots.length ∧
     ∀ i : Nat, image rs'.slots.slots[i]? = image rs.slots.slots[i]?
 
 theorem SameTables.refl (d : State) : SameTables d d :=
-  ⟨rfl, fun _ rs' h => ⟨rs', h, rfl, fun _ => rfl⟩⟩
+  ⟨rfl, fun _ rs' h => ⟨rs', h, rfl, rfl, fun _ => rfl⟩⟩
 
 /-- Replacing the table of set `s`. -/
 theorem sets_set_get {sets : List RootSet} {s s' : Nat} {r rs' : RootSet}
@@ -1112,7 +1131,7 @@ theorem sets_set_get {sets : List RootSet} {s s' : Nat} {r rs' : RootSet}
   getElem?_set_some h
 
 theorem SameTables.ofSets {d d' : State} (h : d'.sets = d.sets) : SameTables d d' :=
-  ⟨by rw [h], fun _ rs' hs => ⟨rs', by rw [← h]; exact hs, rfl, fun _ => rfl⟩⟩
+  ⟨by rw [h], fun _ rs' hs => ⟨rs', by rw [← h]; exact hs, rfl, rfl, fun _ => rfl⟩⟩
 
 theorem next_clone_same (d : State) (h : Handle) : SameTables d (DynRoots.next d (.clone h)) := by
   unfold DynRoots.next
@@ -1128,8 +1147,8 @@ theorem next_clone_same (d : State) (h : Handle) : SameTables d (DynRoots.next d
         obtain ⟨hlen, himg⟩ := inc_spec hi
         refine ⟨by simp, fun s rs' hs => ?_⟩
         rcases sets_set_get hs with ⟨rfl, rfl, _⟩ | ⟨_, hs'⟩
-        · exact ⟨rs, hls, hlen, himg⟩
-        · exact ⟨rs', hs', rfl, fun _ => rfl⟩
+        · exact ⟨rs, hls, rfl, hlen, himg⟩
+        · exact ⟨rs', hs', rfl, rfl, fun _ => rfl⟩
   · simp only [DynRoots.step, hm, if_false]; exact SameTables.refl d
 
 /-- `DynamicRoot::drop` vacates slot `h.index` of set `h.set`: this was the last handle of the slot. -/
@@ -1151,8 +1170,8 @@ theorem next_drop_same (d : State) (h : Handle) (hnv : ¬ Vacates d h) :
         obtain ⟨hlen, _, himg⟩ := dec_spec hi
         refine ⟨by simp, fun s rs' hs => ?_⟩
         rcases sets_set_get hs with ⟨rfl, rfl, _⟩ | ⟨_, hs'⟩
-        · exact ⟨rs, hls, hlen, himg (fun ⟨r, hr⟩ => hnv ⟨hm, rs, r, hl, hr⟩)⟩
-        · exact ⟨rs', hs', rfl, fun _ => rfl⟩
+        · exact ⟨rs, hls, rfl, hlen, himg (fun ⟨r, hr⟩ => hnv ⟨hm, rs, r, hl, hr⟩)⟩
+        · exact ⟨rs', hs', rfl, rfl, fun _ => rfl⟩
   · simp only [DynRoots.step, hm, if_false]; exact SameTables.refl d
 
 theorem next_drop_vacates {d : State} {h : Handle} {rs : RootSet} {r : Nat} (hm : h ∈ d.handles)
@@ -1445,21 +1464,21 @@ theorem fetch_net {a : Arena} (halive : a.alive = true) (hcb : a.cb ≠ none) {l
 
 /-! ## 4. The coupling relation is an invariant of the coupled system -/
 
-theorem Coupled.inv {n : Nat} {S : Sys} (hc : Coupled n S) : Inv S.a := by
+theorem Live.inv {n : Nat} {S : Sys} (hc : Live n S) : Inv S.a := by
   have := inv_run n S.aops (by rw [← hc.arena]; exact hc.alive)
   rw [← hc.arena] at this; exact this
 
-theorem Coupled.dinv {n : Nat} {S : Sys} (hc : Coupled n S) : DynRoots.Inv S.d := by
+theorem Live.dinv {n : Nat} {S : Sys} (hc : Live n S) : DynRoots.Inv S.d := by
   rw [hc.dyn]; exact DynRoots.inv_run _
 
-theorem Coupled.init (n : Nat) : Coupled n (Sys.init n) :=
+theorem Live.init (n : Nat) : Live n (Sys.init n) :=
   ⟨rfl, rfl, rfl, rfl, by simp [Sys.init], by simp [Sys.init]⟩
 
-theorem Coupled.doA_run {n : Nat} {S : Sys} (hc : Coupled n S) (ops : List Op) :
+theorem Live.doA_run {n : Nat} {S : Sys} (hc : Live n S) (ops : List Op) :
     S.a.run ops = (Arena.new n).run (S.aops ++ ops) := by
   rw [arena_run_append, ← hc.arena]
 
-theorem Coupled.doD_run {n : Nat} {S : Sys} (hc : Coupled n S) (op : DynRoots.Op) :
+theorem Live.doD_run {n : Nat} {S : Sys} (hc : Live n S) (op : DynRoots.Op) :
     DynRoots.next S.d op = DynRoots.run State.init (S.dops ++ [op]) := by
   rw [dyn_run_snoc, ← hc.dyn]
 
@@ -1477,8 +1496,8 @@ theorem allowed_spec {S : Sys} {op : Op} (hal : S.allowed op = true) {s : Nat} {
   · rintro v rfl; simp [Sys.allowed] at hal; exact hal hsl
 
 /-- An interleaved collector-model op. -/
-theorem Coupled.gc {n : Nat} {S : Sys} (hc : Coupled n S) {op : Op} (hal : S.allowed op = true) :
-    Coupled n (S.doA [op]) := by
+theorem Live.gc {n : Nat} {S : Sys} (hc : Live n S) {op : Op} (hal : S.allowed op = true) :
+    Live n (S.doA [op]) := by
   have hi := hc.inv
   have hda : op ≠ .dropArena := by rintro rfl; simp [Sys.allowed] at hal
   refine ⟨hc.doA_run [op], hc.dyn, ?_, hc.len, hc.distinct, ?_⟩
@@ -1495,8 +1514,8 @@ theorem Sys.doA_nil (S : Sys) : S.doA [] = S := by
 theorem Sys.doA_cons (S : Sys) (op : Op) (ops : List Op) : S.doA (op :: ops) = (S.doA [op]).doA ops := by
   simp [Sys.doA, Arena.run]
 
-theorem Coupled.gcs {n : Nat} (ops : List Op) : ∀ {S : Sys}, Coupled n S →
-    (∀ op ∈ ops, S.allowed op = true) → Coupled n (S.doA ops) := by
+theorem Live.gcs {n : Nat} (ops : List Op) : ∀ {S : Sys}, Live n S →
+    (∀ op ∈ ops, S.allowed op = true) → Live n (S.doA ops) := by
   induction ops with
   | nil => intro S hc _; rw [Sys.doA_nil]; exact hc
   | cons op ops ih =>
@@ -1507,11 +1526,11 @@ theorem Coupled.gcs {n : Nat} (ops : List Op) : ∀ {S : Sys}, Coupled n S →
 
 /-- A DynRoots op that changes no table image (clone, a drop that leaves other handles of the
 slot, fetch / try_fetch / contains). -/
-theorem Coupled.doD_same {n : Nat} {S : Sys} (hc : Coupled n S) (op : DynRoots.Op)
-    (hT : SameTables S.d (DynRoots.next S.d op)) : Coupled n (S.doD op) := by
+theorem Live.doD_same {n : Nat} {S : Sys} (hc : Live n S) (op : DynRoots.Op)
+    (hT : SameTables S.d (DynRoots.next S.d op)) : Live n (S.doD op) := by
   refine ⟨hc.arena, hc.doD_run op, hc.alive, hc.len.trans hT.1.symm, hc.distinct, ?_⟩
   intro s l rs' hl hs
-  obtain ⟨rs, hrs, hlen, himg⟩ := hT.2 s rs' hs
+  obtain ⟨rs, hrs, _, hlen, himg⟩ := hT.2 s rs' hs
   obtain ⟨hh, hle⟩ := hc.sets s l rs hl hrs
   refine ⟨?_, by rw [hlen]; exact hle⟩
   rw [mirror_congr (tbl := rs.slots.slots) (tbl' := rs'.slots.slots) (fun i _ => himg i)]
@@ -1527,9 +1546,9 @@ theorem getElem?_append_one {α} {l : List α} {x y : α} {s : Nat} (h : (l ++ [
     | zero => rw [hk] at h; simp at h; exact .inr ⟨by omega, h.symm⟩
     | succ k => rw [hk] at h; simp at h
 
-theorem Coupled.newSet {n : Nat} {S : Sys} (hc : Coupled n S) {k : Nat} (cap : Nat)
+theorem Live.newSet {n : Nat} {S : Sys} (hc : Live n S) {k : Nat} (cap : Nat)
     (hcb : S.a.cb = some .mutateRoot) (hk : k < S.a.root.length) (hfree : k ∉ S.rootSlots) :
-    Coupled n ((({ S with loc := S.loc ++ [⟨k, S.a.ctx.heap.fresh, cap⟩] } : Sys).doA
+    Live n ((({ S with loc := S.loc ++ [⟨k, S.a.ctx.heap.fresh, cap⟩] } : Sys).doA
         (newSetOps k cap S.a.ctx.heap.fresh)).doD .newSet) := by
   obtain ⟨nctx, nroot, nalive⟩ := newSet_net hc.alive hcb hk cap
   have hold : ∀ (s : Nat) (l : SetLoc), S.loc[s]? = some l → ∃ rs, S.d.sets[s]? = some rs := by
@@ -1581,10 +1600,10 @@ theorem Coupled.newSet {n : Nat} {S : Sys} (hc : Coupled n S) {k : Nat} (cap : N
           · rw [nctx]; simp [Ctx.link]
           · simp [emptySetObj, Slots.new, mirror_nil]
 
-theorem Coupled.stash {n : Nat} {S : Sys} (hc : Coupled n S) {s r idx : Nat} {l : SetLoc}
+theorem Live.stash {n : Nat} {S : Sys} (hc : Live n S) {s r idx : Nat} {l : SetLoc}
     {rs : RootSet} {sl : Slots} (hl : S.loc[s]? = some l) (hls : S.d.liveSet s = some rs)
     (ha : rs.slots.add r = .ok (sl, idx)) (hcb : S.a.cb ≠ none) (hr : S.a.holds (.strong r) = true)
-    (hidx : idx < l.cap) : Coupled n ((S.doA (stashOps l r idx)).doD (.stash s r)) := by
+    (hidx : idx < l.cap) : Live n ((S.doA (stashOps l r idx)).doD (.stash s r)) := by
   obtain ⟨hsets, _⟩ := DynRoots.liveSet_eq_some.1 hls
   obtain ⟨hh, hle⟩ := hc.sets s l rs hl hsets
   obtain ⟨nctx, nroot, nalive, _, _, _⟩ :=
@@ -1618,10 +1637,10 @@ theorem Coupled.stash {n : Nat} {S : Sys} (hc : Coupled n S) {s r idx : Nat} {l 
       exact (ham _ _ hh0).setSlot_other hne idx _ nroot nctx
     · simp only [he, if_false] at hlen0; omega
 
-theorem Coupled.dropVacating {n : Nat} {S : Sys} (hc : Coupled n S) {h : Handle} {l : SetLoc}
+theorem Live.dropVacating {n : Nat} {S : Sys} (hc : Live n S) {h : Handle} {l : SetLoc}
     {rs : RootSet} {r : Nat} (hm : h ∈ S.d.handles) (hl : S.loc[h.set]? = some l)
     (hls : S.d.liveSet h.set = some rs) (hv : rs.slots.slots[h.index]? = some (.occupied r 0)) :
-    Coupled n ((S.doA (clearOps S.a l h.index)).doD (.dropHandle h)) := by
+    Live n ((S.doA (clearOps S.a l h.index)).doD (.dropHandle h)) := by
   obtain ⟨hsets, _⟩ := DynRoots.liveSet_eq_some.1 hls
   obtain ⟨hh, hle⟩ := hc.sets h.set l rs hl hsets
   have hidx : h.index < rs.slots.slots.length := (List.getElem?_eq_some_iff.1 hv).1
@@ -1654,9 +1673,9 @@ theorem fetchOps_allowed (S : Sys) (l : SetLoc) (h : Handle) :
   simp [fetchOps] at hop
   rcases hop with rfl | rfl <;> rfl
 
-theorem Coupled.fetchLike {n : Nat} {S : Sys} (hc : Coupled n S) (s : Nat) (h : Handle)
-    (dop : DynRoots.Op) (hdop : DynRoots.next S.d dop = S.d) : Coupled n (S.fetchLike s h dop) := by
-  have same : ∀ {S' : Sys}, Coupled n S' → S'.d = S.d → Coupled n (S'.doD dop) := by
+theorem Live.fetchLike {n : Nat} {S : Sys} (hc : Live n S) (s : Nat) (h : Handle)
+    (dop : DynRoots.Op) (hdop : DynRoots.next S.d dop = S.d) : Live n (S.fetchLike s h dop) := by
+  have same : ∀ {S' : Sys}, Live n S' → S'.d = S.d → Live n (S'.doD dop) := by
     intro S' hc' hd
     apply hc'.doD_same
     rw [hd, hdop]; exact SameTables.refl _
@@ -1667,9 +1686,11 @@ theorem Coupled.fetchLike {n : Nat} {S : Sys} (hc : Coupled n S) (s : Nat) (h : 
     · exact same hc rfl
   · exact same hc rfl
 
-/-- **Every coupled operation preserves the coupling relation.** -/
-theorem Coupled.step {n : Nat} {S : Sys} (hc : Coupled n S) (op : COp) : Coupled n (S.step op) := by
+/-- Every coupled operation other than the arena drop preserves the live coupling. -/
+theorem Live.step {n : Nat} {S : Sys} (hc : Live n S) (op : COp) (hne : op ≠ .dropArena) :
+    Live n (S.step op) := by
   cases op with
+  | dropArena => exact absurd rfl hne
   | newSet k cap =>
     simp only [Sys.step]
     split
@@ -1698,7 +1719,7 @@ theorem Coupled.step {n : Nat} {S : Sys} (hc : Coupled n S) (op : COp) : Coupled
     simp only [Sys.step]
     split
     · rename_i hm
-      have nonvac : ∀ (hnv : ¬ Vacates S.d h), Coupled n (S.doD (.dropHandle h)) :=
+      have nonvac : ∀ (hnv : ¬ Vacates S.d h), Live n (S.doD (.dropHandle h)) :=
         fun hnv => hc.doD_same _ (next_drop_same _ _ hnv)
       split
       · rename_i l rs hl hls
@@ -1729,43 +1750,247 @@ theorem Coupled.step {n : Nat} {S : Sys} (hc : Coupled n S) (op : COp) : Coupled
     · rename_i hal; exact hc.gc hal
     · exact hc
 
+/-! ### Arena drop: every set is destroyed -/
+
+theorem Sys.doDs_spec (ops : List DynRoots.Op) : ∀ S : Sys,
+    (S.doDs ops).a = S.a ∧ (S.doDs ops).loc = S.loc ∧ (S.doDs ops).aops = S.aops ∧
+    (S.doDs ops).d = DynRoots.run S.d ops ∧ (S.doDs ops).dops = S.dops ++ ops := by
+  induction ops with
+  | nil => intro S; simp [Sys.doDs, DynRoots.run]
+  | cons op ops ih =>
+    intro S
+    obtain ⟨h1, h2, h3, h4, h5⟩ := ih (S.doD op)
+    refine ⟨h1, h2, h3, ?_, ?_⟩
+    · exact h4
+    · show ((S.doD op).doDs ops).dops = _
+      rw [h5]; simp [Sys.doD]
+
+theorem dyn_run_append (ops ops' : List DynRoots.Op) :
+    ∀ st : State, DynRoots.run st (ops ++ ops') = DynRoots.run (DynRoots.run st ops) ops' := by
+  induction ops with
+  | nil => intro st; rfl
+  | cons o ops ih => intro st; simp only [List.cons_append, DynRoots.run]; exact ih _
+
+theorem liveSet_of_ge {d : State} {s : Nat} (h : d.sets.length ≤ s) : d.liveSet s = none := by
+  unfold State.liveSet
+  rw [List.getElem?_eq_none h]
+
+theorem next_destroy (d : State) (x : Nat) :
+    (DynRoots.next d (.destroySet x)).sets.length = d.sets.length ∧
+    (DynRoots.next d (.destroySet x)).liveSet x = none ∧
+    ∀ s, d.liveSet s = none → (DynRoots.next d (.destroySet x)).liveSet s = none := by
+  cases hl : d.liveSet x with
+  | none =>
+    have e : DynRoots.next d (.destroySet x) = d := by simp [DynRoots.next, DynRoots.step, hl]
+    rw [e]; exact ⟨rfl, hl, fun _ h => h⟩
+  | some rs =>
+    have e : DynRoots.next d (.destroySet x) =
+        { d with sets := d.sets.set x { rs with alive := false } } := by
+      simp [DynRoots.next, DynRoots.step, hl]
+    rw [e]
+    refine ⟨by simp, ?_, ?_⟩
+    · apply DynRoots.liveSet_eq_none.2
+      intro rs' hs
+      rcases sets_set_get hs with ⟨_, rfl, _⟩ | ⟨hne, _⟩
+      · rfl
+      · exact absurd rfl hne
+    · intro s hs
+      apply DynRoots.liveSet_eq_none.2
+      intro rs' hs'
+      rcases sets_set_get hs' with ⟨_, rfl, _⟩ | ⟨_, hold⟩
+      · rfl
+      · exact DynRoots.liveSet_eq_none.1 hs rs' hold
+
+theorem run_destroy (l : List Nat) : ∀ d : State,
+    (DynRoots.run d (l.map .destroySet)).sets.length = d.sets.length ∧
+    ∀ s, (s ∈ l ∨ d.liveSet s = none) → (DynRoots.run d (l.map .destroySet)).liveSet s = none := by
+  induction l with
+  | nil =>
+    intro d
+    refine ⟨rfl, fun s h => ?_⟩
+    show d.liveSet s = none
+    rcases h with h | h
+    · cases h
+    · exact h
+  | cons x l ih =>
+    intro d
+    obtain ⟨n1, n2, n3⟩ := next_destroy d x
+    obtain ⟨i1, i2⟩ := ih (DynRoots.next d (.destroySet x))
+    simp only [List.map_cons, DynRoots.run]
+    refine ⟨i1.trans n1, fun s hs => ?_⟩
+    rcases hs with hs | hs
+    · rcases List.mem_cons.1 hs with rfl | hs
+      · exact i2 _ (.inr n2)
+      · exact i2 _ (.inl hs)
+    · exact i2 _ (.inr (n3 s hs))
+
+/-- After `destroySet` for every set id, no set is alive. -/
+theorem run_destroyOps (d : State) :
+    (DynRoots.run d (destroyOps d.sets.length)).sets.length = d.sets.length ∧
+    ∀ s, (DynRoots.run d (destroyOps d.sets.length)).liveSet s = none := by
+  obtain ⟨h1, h2⟩ := run_destroy (List.range d.sets.length) d
+  refine ⟨h1, fun s => h2 s ?_⟩
+  by_cases hs : s < d.sets.length
+  · exact .inl (List.mem_range.2 hs)
+  · exact .inr (liveSet_of_ge (by omega))
+
+theorem step_dropArena {a : Arena} (halive : a.alive = true) (hcb : a.cb = none) :
+    (a.step .dropArena).1.alive = false := by
+  rw [step_alive_eq halive]
+  simp [Arena.stepBody, hcb]
+
+/-- The coupling relation once the arena has been dropped: no set is alive (so handle clones and
+drops no longer touch any table: `C14.outlive`). -/
+structure Dead (n : Nat) (S : Sys) : Prop where
+  arena : S.a = (Arena.new n).run S.aops
+  dyn : S.d = DynRoots.run State.init S.dops
+  len : S.loc.length = S.d.sets.length
+  distinct : ∀ (s s' : Nat) (l l' : SetLoc), S.loc[s]? = some l → S.loc[s']? = some l' → l.id = l'.id → s = s'
+  dead : S.a.alive = false
+  sets : ∀ s, S.d.liveSet s = none
+
+theorem Live.dropArena {n : Nat} {S : Sys} (hc : Live n S) (hcb : S.a.cb = none) :
+    Dead n ((S.doA [.dropArena]).doDs (destroyOps S.d.sets.length)) := by
+  obtain ⟨s1, s2, s3, s4, s5⟩ := (S.doA [.dropArena]).doDs_spec (destroyOps S.d.sets.length)
+  obtain ⟨r1, r2⟩ := run_destroyOps S.d
+  refine ⟨?_, ?_, ?_, ?_, ?_, ?_⟩
+  · rw [s1, s3]; exact hc.doA_run _
+  · rw [s4, s5]
+    show DynRoots.run S.d _ = DynRoots.run State.init (S.dops ++ _)
+    rw [dyn_run_append, ← hc.dyn]
+  · rw [s2, s4]
+    show S.loc.length = (DynRoots.run S.d _).sets.length
+    rw [r1]; exact hc.len
+  · rw [s2]; exact hc.distinct
+  · rw [s1]; exact step_dropArena hc.alive hcb
+  · rw [s4]; exact r2
+
+theorem Dead.doA {n : Nat} {S : Sys} (hd : Dead n S) (ops : List Op) : Dead n (S.doA ops) := by
+  refine ⟨?_, hd.dyn, hd.len, hd.distinct, ?_, hd.sets⟩
+  · show S.a.run ops = (Arena.new n).run (S.aops ++ ops)
+    rw [arena_run_append, ← hd.arena]
+  · show (S.a.run ops).alive = false
+    rw [run_dead hd.dead]; exact hd.dead
+
+theorem Dead.doD {n : Nat} {S : Sys} (hd : Dead n S) (op : DynRoots.Op)
+    (hT : SameTables S.d (DynRoots.next S.d op)) : Dead n (S.doD op) := by
+  refine ⟨hd.arena, ?_, hd.len.trans hT.1.symm, hd.distinct, hd.dead, ?_⟩
+  · show DynRoots.next S.d op = DynRoots.run State.init (S.dops ++ [op])
+    rw [dyn_run_snoc, ← hd.dyn]
+  · intro s
+    apply DynRoots.liveSet_eq_none.2
+    intro rs' hs
+    obtain ⟨rs, hrs, ha, _⟩ := hT.2 s rs' hs
+    rw [ha]; exact DynRoots.liveSet_eq_none.1 (hd.sets s) rs hrs
+
+/-- Once the arena is gone, every coupled operation keeps it that way: collector-model ops are
+refused, handle clones and drops only add / remove handles. -/
+theorem Dead.step {n : Nat} {S : Sys} (hd : Dead n S) (op : COp) : Dead n (S.step op) := by
+  have hal : S.a.alive = false := hd.dead
+  cases op with
+  | newSet k cap => simp [Sys.step, hal]; exact hd
+  | stash s r =>
+    simp only [Sys.step]
+    split
+    · rename_i l rs hl hls
+      rw [hd.sets s] at hls; cases hls
+    · exact hd
+  | clone h => exact hd.doD _ (next_clone_same _ _)
+  | dropHandle h =>
+    simp only [Sys.step]
+    have nv : ¬ Vacates S.d h := by
+      rintro ⟨_, rs, r, hls, _⟩
+      rw [hd.sets h.set] at hls; cases hls
+    split
+    · split
+      · rename_i l rs hl hls
+        rw [hd.sets h.set] at hls; cases hls
+      · exact hd.doD _ (next_drop_same _ _ nv)
+    · exact hd
+  | fetch s h =>
+    have : S.fetchLike s h (.fetch s h) = S.doD (.fetch s h) := by
+      unfold Sys.fetchLike; split <;> simp [hal]
+    show Dead n (S.fetchLike s h (.fetch s h))
+    rw [this]
+    apply hd.doD
+    rw [DynRoots.next_fetch]; exact SameTables.refl _
+  | tryFetch s h =>
+    have : S.fetchLike s h (.tryFetch s h) = S.doD (.tryFetch s h) := by
+      unfold Sys.fetchLike; split <;> simp [hal]
+    show Dead n (S.fetchLike s h (.tryFetch s h))
+    rw [this]
+    apply hd.doD
+    rw [DynRoots.next_tryFetch]; exact SameTables.refl _
+  | contains s h =>
+    apply hd.doD
+    rw [DynRoots.next_contains]; exact SameTables.refl _
+  | gc op =>
+    simp only [Sys.step]
+    split
+    · exact hd.doA _
+    · exact hd
+  | dropArena => simp [Sys.step, hal]; exact hd
+
+/-! ### The coupling relation -/
+
+/-- **The coupling relation.**  Both sides are runs of the two existing models from their initial
+states; there is one `SetLoc` per set, with pairwise different set objects; **while the arena
+exists** every set's object is held by its root slot, allocated, undestructed, traced, and mirrors
+the set's slot table slot by slot (`Holds … (mirror cap table)`), the table having at most `cap`
+slots; **once the arena has been dropped** no set is alive. -/
+structure Coupled (n : Nat) (S : Sys) : Prop where
+  arena : S.a = (Arena.new n).run S.aops
+  dyn : S.d = DynRoots.run State.init S.dops
+  len : S.loc.length = S.d.sets.length
+  distinct : ∀ (s s' : Nat) (l l' : SetLoc), S.loc[s]? = some l → S.loc[s']? = some l' → l.id = l'.id → s = s'
+  sets : S.a.alive = true → ∀ (s : Nat) (l : SetLoc) (rs : RootSet), S.loc[s]? = some l →
+    S.d.sets[s]? = some rs → Holds S.a l (mirror l.cap rs.slots.slots) ∧ rs.slots.slots.length ≤ l.cap
+  dead : S.a.alive = false → ∀ s, S.d.liveSet s = none
+
+theorem Live.coupled {n : Nat} {S : Sys} (h : Live n S) : Coupled n S :=
+  ⟨h.arena, h.dyn, h.len, h.distinct, fun _ => h.sets, fun hd => (by rw [h.alive] at hd; cases hd)⟩
+
+theorem Dead.coupled {n : Nat} {S : Sys} (h : Dead n S) : Coupled n S :=
+  ⟨h.arena, h.dyn, h.len, h.distinct, fun ha => (by rw [h.dead] at ha; cases ha), fun _ => h.sets⟩
+
+theorem Coupled.live {n : Nat} {S : Sys} (h : Coupled n S) (ha : S.a.alive = true) : Live n S :=
+  ⟨h.arena, h.dyn, ha, h.len, h.distinct, h.sets ha⟩
+
+theorem Coupled.dead' {n : Nat} {S : Sys} (h : Coupled n S) (ha : S.a.alive = false) : Dead n S :=
+  ⟨h.arena, h.dyn, h.len, h.distinct, ha, h.dead ha⟩
+
+/-- An alive set witnesses that the arena still exists. -/
+theorem Coupled.live_of_liveSet {n : Nat} {S : Sys} (h : Coupled n S) {s : Nat} {rs : RootSet}
+    (hl : S.d.liveSet s = some rs) : Live n S := by
+  cases ha : S.a.alive with
+  | true => exact h.live ha
+  | false => rw [h.dead ha s] at hl; cases hl
+
+theorem Coupled.init (n : Nat) : Coupled n (Sys.init n) := (Live.init n).coupled
+
+/-- **Every coupled operation preserves the coupling relation.** -/
+theorem Coupled.step {n : Nat} {S : Sys} (hc : Coupled n S) (op : COp) : Coupled n (S.step op) := by
+  cases ha : S.a.alive with
+  | false => exact ((hc.dead' ha).step op).coupled
+  | true =>
+    have hl := hc.live ha
+    by_cases hop : op = .dropArena
+    · subst hop
+      simp only [Sys.step]
+      split
+      · rename_i hg
+        simp only [Bool.and_eq_true, Option.isNone_iff_eq_none] at hg
+        exact (hl.dropArena hg.2).coupled
+      · exact hc
+    · exact (hl.step op hop).coupled
+
 /-- **`coupled_run`**: the coupling relation holds after every coupled operation sequence. -/
 theorem Coupled.run {n : Nat} (ops : List COp) : ∀ {S : Sys}, Coupled n S → Coupled n (S.run ops) := by
   induction ops with
   | nil => intro S hc; exact hc
   | cons op ops ih => intro S hc; exact ih (hc.step op)
 
-
-/-! ## 5. Two `finish_cycle` calls, at the level of the coupled system -/
-
-/-- The self-driven `finish_cycle` op outside callbacks is exactly `do_collection(Stop, FinishCycle)`
-on the context; root, temps, callback state untouched. -/
-theorem step_finishCycle {a : Arena} (h : Inv a) (hcb : a.cb = none) (k : Cont) :
-    (a.step (.collect .finishCycle k none none)).1 =
-      { a with marked := false, ctx := (a.ctx.doCollection a.root .stop .finishCycle none).1, cover := [] } := by
-  have hnot : (!a.alive) = false := by rw [h.alive]; rfl
-  have hret := doCollection_returns (cinv0 h hcb) .stop .finishCycle
-  unfold Arena.step
-  rw [hnot]
-  simp only [Bool.false_eq_true, if_false, Arena.stepBody, hcb, Option.isSome_none, Arena.splitOracle,
-    Arena.runCollector, Arena.methodArgs]
-  rw [show (a.ctx.doCollection a.root .stop .finishCycle none) =
-    ((a.ctx.doCollection a.root .stop .finishCycle none).1, (a.ctx.doCollection a.root .stop .finishCycle none).2) from rfl,
-    hret]
-  simp
-
 /-- `arena.finish_cycle()` as a coupled op. -/
 def fc : COp := .gc (.collect .finishCycle .drop none none)
-
-theorem Coupled.finishCycle {n : Nat} {S : Sys} (hc : Coupled n S) (hcb : S.a.cb = none) :
-    (S.step fc).a.ctx = (S.a.ctx.doCollection S.a.root .stop .finishCycle none).1 ∧
-    (S.step fc).a.root = S.a.root ∧ (S.step fc).a.cb = none ∧ (S.step fc).d = S.d ∧
-    (S.step fc).loc = S.loc := by
-  have e : S.step fc = S.doA [.collect .finishCycle .drop none none] := by
-    simp [Sys.step, fc, Sys.allowed]
-  rw [e]
-  show (S.a.step _).1.ctx = _ ∧ (S.a.step _).1.root = _ ∧ (S.a.step _).1.cb = _ ∧ _
-  rw [step_finishCycle hc.inv hcb]
-  exact ⟨rfl, rfl, hcb, rfl, rfl⟩
 
 end GcArena.DynCompose
